@@ -15,7 +15,7 @@ pub mod edits;
 pub mod small;
 
 pub fn all_ids() -> Vec<&'static str> {
-    vec!["C01", "C02", "C03", "C06", "C07", "C08", "C09", "C10", "C11", "C12", "C13", "C14", "C15", "C21", "C22", "C23", "C24", "C25", "C28", "C29", "C30"]
+    vec!["C01", "C02", "C03", "C06", "C07", "C08", "C09", "C10", "C11", "C12", "C13", "C14", "C15", "C21", "C22", "C23", "C24", "C25", "C26", "C28", "C29", "C30"]
 }
 
 pub fn get(id: &str) -> Option<Box<dyn Driver>> {
@@ -38,6 +38,7 @@ pub fn get(id: &str) -> Option<Box<dyn Driver>> {
         "C23" => Box::new(c23::SideEffects),
         "C24" => Box::new(c24::OpcodeHelpers),
         "C25" => Box::new(iter::ModuleIter),
+        "C26" => Box::new(iter::ComponentIter),
         "C28" => Box::new(small::CustomSections),
         "C29" => Box::new(edits::c29()),
         "C30" => Box::new(edits::c30()),
